@@ -16,8 +16,8 @@
 
    A throwing move changes nothing (El<2> ticks before it touches source or destination).  ONE injected fault: [tick (Some 0)]
    throws and leaves [None], so the handlers (`catch (...) { ...; throw; }`) run with no further fault; they are written with
-   the oracle [None] ([rethrow]).  (A second exception inside the handler of emplace_n - shift_left uses throwing moves too - would
-   skip `destroy_at (e)`: outside this single fault model, see harness/cpp/SLOTDRV.md.)
+   the oracle [None] ([rethrow]).  (A second exception inside the handler of emplace_n - shift_left uses throwing moves too - is
+   outside this single fault model; the scope guards of shift_left and of the handlers take care of it: [emplace_n_second_fault_ex].)
 
    Memory effect of a move that does not throw: EmplaceGrow.mv_construct / mv_assign (a moved-from source is accepted).
 
@@ -338,14 +338,17 @@ Proof.
 Qed.
 
 (* ---- vec::shift_left (first, n), n != 0 ---------------------------------------------------------------------------------------------- *)
-(* first[-1] = std::move (first[0]);  destroy_at (std::move (first + 1, first + n, first));      no try / catch: a throw propagates *)
+(* DestroyGuard guard (first + n - 1, 1);  first[-1] = std::move (first[0]);  std::move (first + 1, first + n, first);
+   the guard destroys the last slot when the moves are done AND when one of them throws (it is beyond the size the caller keeps) *)
+Definition guard_destroy (o : out) (i : nat) : out :=
+  match o with
+  | Done m th => lift (destroy m i) th
+  | Threw m => match destroy m i with inl m' => Threw m' | inr e => Err e end
+  | Err e => Err e end.
 Definition shift_left (m : mem) (th : option nat) (first n : nat) : out :=
-  match move_assign m th (first - 1) first with
-  | Done m1 th1 =>
-      match move_forward m1 th1 (first + 1) (n - 1) first with
-      | Done m2 th2 => lift (destroy m2 (first + n - 1)) th2
-      | o => o end
-  | o => o end.
+  guard_destroy (match move_assign m th (first - 1) first with
+                 | Done m1 th1 => move_forward m1 th1 (first + 1) (n - 1) first
+                 | o => o end) (first + n - 1).
 Lemma shift_left_none m first n : shift_left m None first n = lift (EmplaceGrow.shift_left m first n) None.
 Proof.
   unfold shift_left, EmplaceGrow.shift_left. rewrite move_assign_none.
@@ -357,19 +360,21 @@ Qed.
 Lemma shift_left_kept m th pos n : 1 <= n -> (forall j, pos <= j <= pos + n -> alive (m j) = true) ->
   match shift_left m th (pos + 1) n with
   | Done m' _ => EmplaceGrow.shift_left m (pos + 1) n = inl m'
-  | Threw m' => Kept m m' pos (n + 1)
+  | Threw m' => exists m1, Kept m m1 pos (n + 1) /\ m' = upd m1 (pos + n) Raw
   | Err _ => False end.
 Proof.
-  intros Hn Ha. unfold shift_left, EmplaceGrow.shift_left. replace (pos + 1 - 1) with pos by lia.
+  intros Hn Ha. unfold shift_left, EmplaceGrow.shift_left, guard_destroy. replace (pos + 1 - 1) with pos by lia. replace (pos + 1 + n - 1) with (pos + n) by lia.
   rewrite (move_assign_ok m th pos (pos + 1)) by (apply Ha; lia). rewrite (mv_assign_ok m pos (pos + 1)) by (apply Ha; lia).
-  destruct (tick th) as [[|] th1]; cbn [fst snd]; [apply Kept_refl; intros j Hj; apply Ha; lia|].
+  destruct (tick th) as [[|] th1]; cbn [fst snd].
+  { rewrite destroy_ok by (apply Ha; lia). exists m. split; [apply Kept_refl; intros j Hj; apply Ha; lia|reflexivity]. }
   assert (K1 : Kept m (upd (upd m pos (m (pos + 1))) (pos + 1) Moved) pos (n + 1)).
   { apply Kept_move; [intros j Hj; apply Ha; lia|lia|lia]. }
   pose proof (move_forward_kept (n - 1) (upd (upd m pos (m (pos + 1))) (pos + 1) Moved) th1 (pos + 1 + 1) (pos + 1) ltac:(lia)
                 ltac:(intros j Hj; apply (proj1 K1); lia)) as F.
   destruct (move_forward (upd (upd m pos (m (pos + 1))) (pos + 1) Moved) th1 (pos + 1 + 1) (n - 1) (pos + 1)) as [m2 th2|m2|x]; [| |exact F].
   - destruct F as [E K]. rewrite E. rewrite destroy_ok by (apply (proj1 K); lia). reflexivity.
-  - apply (Kept_trans _ _ _ _ _ _ _ K1 F); lia.
+  - pose proof (Kept_trans _ _ _ _ _ _ _ K1 F ltac:(lia) ltac:(lia)) as K2.
+    rewrite destroy_ok by (apply (proj1 K2); lia). exists m2. split; [exact K2|reflexivity].
 Qed.
 (* [moved-from, 10, 11, 12, raw]: what shift_right (0, 3) leaves of [10, 11, 12] *)
 Example shift_left_kept_ex :
@@ -446,9 +451,8 @@ Qed.
 
 (* ---- vec::emplace_n (pos, n, args...) ------------------------------------------------------------------------------------------------- *)
 (* try { shift_right (pos, n); } catch (...) { destroy_at (e); throw; }
-   try { relocate_after_shift (e, pos); } catch (...) { shift_left (pos + 1, n); destroy_at (e); throw; }
-   the handlers run after the one injected fault: oracle None.  (A second exception from shift_left would leave the handler before
-   destroy_at (e): the Threw branch of the inner match.) *)
+   try { relocate_after_shift (e, pos); } catch (...) { DestroyGuard guard (e, 1); shift_left (pos + 1, n); throw; }
+   the handlers run after the one injected fault: oracle None (the guard then destroys e when the handler rethrows). *)
 Definition shift_relocate (fx : bool) (m : mem) (th : option nat) (pos n e : nat) : out :=
   match shift_right1 fx m th pos n with
   | Threw m2 => match destroy m2 e with inl m3 => Threw m3 | inr x => Err x end
@@ -949,27 +953,27 @@ Proof. vm_compute. reflexivity. Qed.
 Example emplace_n_complete_ex : show (emplace_n true (init_lay 3 5 99) (Some 5%nat) 0 3 6 7 Rvalue) 8
   = Some (false, [Live 99; Live 10; Live 11; Live 12; Raw; Out; Raw; Moved]).
 Proof. vm_compute. reflexivity. Qed.
-(* shift_left on its own (on what shift_right (0, 3) left), second move assignment throws: no clean-up, 4 slots alive *)
+(* shift_left on its own (on what shift_right (0, 3) left), second move assignment throws: the guard destroys the last slot *)
 Example shift_left_throw_ex :
   show (match shift_right1 true (init 3 5) None 0 3 with Done m1 _ => shift_left m1 (Some 1%nat) 1 3 | o => o end) 6
-  = Some (true, [Live 10; Moved; Live 11; Live 12; Raw; Out]).
+  = Some (true, [Live 10; Moved; Live 11; Raw; Raw; Out]).
 Proof. vm_compute. reflexivity. Qed.
 
 (* OUTSIDE the single fault model (every theorem above: ONE injected exception): the handlers of emplace_n / insert_n call shift_left,
-   whose move assignments can throw as well.  A SECOND exception leaves handler 2 of emplace_n before `destroy_at (e)` and before the
-   last slot is destroyed.  emplace (begin (), std::move (x)) on [10, 11], capacity 3 (e = slot 4, x = slot 5): the shift completed, the
-   move assignment of relocate_after_shift throws, then the first move assignment of shift_left throws: slot 2 - beyond size () = 2 - is
-   Live and the temporary e is still Live: two objects nobody destroys (seen on the real code with an element whose move assignment
-   keeps throwing, harness/cpp/SLOTDRV.md) *)
+   whose move assignments can throw as well.  Before the scope guards, a SECOND exception left handler 2 of emplace_n before
+   `destroy_at (e)` and before the last slot was destroyed (two objects nobody destroyed).  Now the guard of shift_left destroys the
+   last slot and the guard of the handler destroys e.  emplace (begin (), std::move (x)) on [10, 11], capacity 3 (e = slot 4, x = slot
+   5): the shift completed, the move assignment of relocate_after_shift throws, then the first move assignment of shift_left throws:
+   the vector keeps its size 2 with [moved-from, 10], nothing is alive beyond, the temporary is destroyed (11 is lost: basic guarantee) *)
 Example emplace_n_second_fault_ex :
   show (match construct_arg (init_lay 2 3 99) None 4 5 Rvalue with
         | Done m1 _ => match shift_right1 true m1 None 0 2 with
                        | Done m2 _ => match relocate_after_shift m2 (Some 0%nat) 4 0 with
-                                      | Threw m3 => shift_left m3 (Some 0%nat) 1 2        (* the handler, with a second fault *)
+                                      | Threw m3 => guard_destroy (shift_left m3 (Some 0%nat) 1 2) 4   (* the handler, with a second fault *)
                                       | o => o end
                        | o => o end
         | o => o end) 6
-  = Some (true, [Moved; Live 10; Live 11; Out; Live 99; Moved]).
+  = Some (true, [Moved; Live 10; Raw; Out; Raw; Moved]).
 Proof. vm_compute. reflexivity. Qed.
 
 Print Assumptions shift_right1_basic.
